@@ -438,6 +438,26 @@ def judge_c08(ctx, idx, op, impl, mi, ms, reason):
         ctx.count("serve_malformed_kind" + lab.get("kind", "?"))
         if len(calls) != k or wlen != sum(al[:k]):
             bad = "after a malformed frame at position %d: %d calls, %d octets written (expected %d calls, %d octets)" % (k, len(calls), wlen, k, sum(al[:k]))
+    elif "readcut" in lab and "writecut" in lab:
+        # both at once: requests that arrived completely are handled one after the other until a write fails
+        pcut, q = int(lab["readcut"]), int(lab["writecut"])
+        kr, acc = 0, 0
+        for l in rl:
+            if acc + l <= pcut:
+                acc += l
+                kr += 1
+            else:
+                break
+        want_calls, acc = 0, 0
+        for i in range(kr):
+            want_calls = i + 1
+            acc += al[i]
+            if acc > q:
+                break
+        want_w = min(q, sum(al[:want_calls]))
+        ctx.count("serve_bothcut")
+        if len(calls) != want_calls or wlen != want_w:
+            bad = "stream cut at offset %d and write failure at offset %d: %d handler calls, %d octets written (expected %d calls, %d octets)" % (pcut, q, len(calls), wlen, want_calls, want_w)
     elif "readcut" in lab:
         pcut = int(lab["readcut"])
         k = 0
